@@ -10,6 +10,9 @@ CHECKS = {
  "C02": dict(level="model_checking", technique="symbolic execution of the MIR of gm-sm4 into z3 bit-vector queries with the S-box uninterpreted; table checked exhaustively against the algebraic S-box",
              text="Key schedule, encrypt, decrypt ≡ GB/T 32907 for all keys / round keys / blocks; decrypt∘encrypt = encrypt∘decrypt = id proved on the code; cipher object unchanged and repeat calls agree (3-call histories); SBOX/FK/CK ground-checked; thorough adds Kani bit-precise re-proofs.",
              note="S-box uninterpreted in the equivalence queries (sound over-approximation); z3; MIR printer; spec model validated on the Annex example.", design="§2 C02", engine="mirsmt"),
+ "C06": dict(level="model_checking", technique="symbolic execution of the MIR of Sm2PrivateKey::decrypt (with kdf, xor_bytes) over bit-vectors; hash/decoder/group layers as z3 uninterpreted functions; one query set per ciphertext length",
+             text="For every ciphertext length 0..C1+32+40 (thorough +100), both component orders and both C1 encodings, all byte contents and keys: a plaintext is returned only if C1 decodes, its affine form passes the curve check, m = C2 xor KDF(x2||y2,|C2|) with (x2,y2)=[d]C1 and C3 equals SM3(x2||m||y2) on all 32 bytes; no input panics.",
+             note="uninterpreted layers (sound for every implementation of them); SM3 collision resistance for 'never a different plaintext'; on-curve predicate/decoder themselves in C11/C19.", design="§2 C06", engine="mirsmt"),
  "C07": dict(level="model_checking", technique="Kani/CBMC bounded model checking of the real mode code against textbook modes written in the harness; block cipher as a logging uninterpreted permutation",
              text="For CFB/OFB/CTR/CBC and every listed data length (quick: 0,1,16,17,33; thorough up to 64) with symbolic key, IV and data: ciphertext equals the standard mode (CTR counter = 128-bit big-endian integer, all carries and wrap-around), output lengths, decrypt(encrypt(d)) = d; IV length != 16 is an error; CBC decryption rejects lengths that are not a positive multiple of 16 and final padding bytes outside 1..16, without panicking.",
              note="E/D arbitrary injective pair (SM4 itself: C02); lengths above the bound not covered; CBMC/CaDiCaL.", design="§2 C07", engine="kani"),
